@@ -64,14 +64,26 @@ type PredSpec struct {
 	Line      int
 }
 
-type ContractFile struct {
-	Path  string
-	Funcs map[string]*FuncSpec
-	Preds map[string]*PredSpec
-	Order []string
+// TableSpec lists facts about a constant table: a package-level `var t = []T{literals}` that is
+// never written. Each fact is a closed statement about the table; it is proved once from the
+// literal contents (obligation kind "table") and then assumed wherever the table is read.
+type TableSpec struct {
+	Name  string
+	File  string
+	Line  int
+	Facts []*Clause
 }
 
-var kwRe = regexp.MustCompile(`^(func|fun|pred|spec|requires|ensures|invariant|decreases|modifies|loop|inline|trusted|pure|mode|check-overflow|assume-note|option)\b`)
+type ContractFile struct {
+	Path       string
+	Funcs      map[string]*FuncSpec
+	Preds      map[string]*PredSpec
+	Order      []string
+	Tables     map[string]*TableSpec
+	TableOrder []string
+}
+
+var kwRe = regexp.MustCompile(`^(func|fun|pred|spec|requires|ensures|invariant|decreases|modifies|loop|inline|trusted|pure|mode|check-overflow|assume-note|option|table|fact)\b`)
 
 // ParseContractFile reads //@ lines.
 func ParseContractFile(path string) (*ContractFile, error) {
@@ -79,7 +91,7 @@ func ParseContractFile(path string) (*ContractFile, error) {
 	if err != nil {
 		return nil, err
 	}
-	cf := &ContractFile{Path: path, Funcs: map[string]*FuncSpec{}, Preds: map[string]*PredSpec{}}
+	cf := &ContractFile{Path: path, Funcs: map[string]*FuncSpec{}, Preds: map[string]*PredSpec{}, Tables: map[string]*TableSpec{}}
 	type item struct {
 		kw, text string
 		line     int
@@ -109,6 +121,7 @@ func ParseContractFile(path string) (*ContractFile, error) {
 	}
 	var cur *FuncSpec
 	var curLoop *LoopSpec
+	var curTable *TableSpec
 	mk := func(kind string, it item) (*Clause, error) {
 		e, err := ParseExpr(it.text)
 		if err != nil {
@@ -118,7 +131,26 @@ func ParseContractFile(path string) (*ContractFile, error) {
 	}
 	for _, it := range items {
 		switch it.kw {
+		case "table":
+			name := strings.TrimSpace(it.text)
+			curTable = &TableSpec{Name: name, File: path, Line: it.line}
+			if _, dup := cf.Tables[name]; dup {
+				return nil, fmt.Errorf("%s:%d: duplicate table %s", path, it.line, name)
+			}
+			cf.Tables[name] = curTable
+			cf.TableOrder = append(cf.TableOrder, name)
+			cur, curLoop = nil, nil
+		case "fact":
+			if curTable == nil {
+				return nil, fmt.Errorf("%s:%d: fact outside table", path, it.line)
+			}
+			c, err := mk("fact", it)
+			if err != nil {
+				return nil, err
+			}
+			curTable.Facts = append(curTable.Facts, c)
 		case "func":
+			curTable = nil
 			name := strings.TrimSpace(it.text)
 			cur = &FuncSpec{Name: name, File: path, Line: it.line, Mode: "int", Loops: map[int]*LoopSpec{}, Options: map[string]string{}}
 			if _, dup := cf.Funcs[name]; dup {
@@ -140,6 +172,7 @@ func ParseContractFile(path string) (*ContractFile, error) {
 			ps.AsFun = it.kw == "fun"
 			cf.Preds[ps.Name] = ps
 			cur = nil
+			curTable = nil
 		default:
 			if cur == nil {
 				return nil, fmt.Errorf("%s:%d: clause outside func", path, it.line)
